@@ -211,6 +211,45 @@ Definition gitlab (diffs : list gl_diff) (max_comments : nat) : platform ecommen
      can_delete := fun _ => true; create := gl_create diffs |}.
 
 (* ---------------------------------------------------------------------------------------------- *)
+(** * The platforms over the SERVER's state (what the API holds, not what List shows)
+
+    GitLab: a discussion is seen through its first note; GitLabReporter.List drops the discussion when that note is
+    a system note, was written by somebody else, or has no position (a general note); everything else becomes an
+    ExistingComment through [gl_listed].  Only listed discussions can be recognised or deleted.
+    (A discussion without any note would be listed as a zero comment whose Delete panics on its nil meta; the
+    GitLab API does not produce such discussions - assumption "every discussion has a note".) *)
+Record gl_note := { gn_system : bool; gn_mine : bool; gn_pos : option gl_position; gn_body : string }.
+
+Definition gl_view (n : gl_note) : option ecomment :=
+  if gn_system n then None
+  else if negb (gn_mine n) then None
+  else match gn_pos n with
+       | None => None
+       | Some pos => Some (gl_listed pos (gn_body n))
+       end.
+
+Definition gl_post (diffs : list gl_diff) (p : pcomment) : option gl_note :=
+  match gl_discussion diffs p with
+  | None => None
+  | Some pos => Some {| gn_system := false; gn_mine := true; gn_pos := Some pos; gn_body := pc_text p |}
+  end.
+
+Definition gitlab_srv (diffs : list gl_diff) (max_comments : nat) : platform gl_note pcomment :=
+  {| is_equal := fun n p => match gl_view n with Some e => gl_is_equal e p | None => false end;
+     can_create := fun done => Nat.ltb done max_comments;
+     can_delete := fun n => match gl_view n with Some _ => true | None => false end;
+     create := gl_post diffs |}.
+
+(** GitHub: GithubReporter.List drops comments without a path (general comments); nothing is ever deleted. *)
+Definition gh_view (c : ecomment) : option ecomment := if String.eqb (ec_path c) "" then None else Some c.
+
+Definition github_srv (files : gh_files) (max_comments : nat) : platform ecomment pcomment :=
+  {| is_equal := fun c p => match gh_view c with Some e => gh_is_equal files e p | None => false end;
+     can_create := fun done => Nat.ltb done max_comments;
+     can_delete := fun _ => false;
+     create := gh_create files |}.
+
+(* ---------------------------------------------------------------------------------------------- *)
 (** * Historical variant (before fix 38f6be7), kept only for the refutation theorem in Properties/C17.v:
       AnchorBefore comments were posted at [dl.old] of the diff line found for an OLD line number among NEW ones. *)
 
